@@ -38,6 +38,7 @@ class Ctx:
         self._facts = {}
         self.digest = None
         self.inconclusive = []
+        self.selftest = None
 
     # ---- facts
     def facts(self, cfg, crate="jsonlogic_rs", profile="debug"):
@@ -134,6 +135,8 @@ class Ctx:
             "known_findings_reported": [l for l in lines],
             "notes": self.notes,
         }
+        if self.selftest is not None:
+            cov["selftest"] = self.selftest
         ev = {
             "property_id": self.prop,
             "tier": self.tier,
@@ -178,4 +181,11 @@ def run_check(prop, tier, fn, level="other"):
         import traceback
         tb = traceback.format_exc().strip().splitlines()
         ctx.inconclusive.append("internal error while reading the code (%s: %s) at %s" % (type(e).__name__, e, tb[-3].strip() if len(tb) >= 3 else ""))
+    else:
+        if tier == "thorough" and not ctx.viol and not ctx.inconclusive:
+            try:
+                from . import selftest
+                selftest.run(ctx, prop)
+            except Exception as e:
+                ctx.notes.append("self-test could not run: %s" % e)
     return ctx.finish()
